@@ -343,6 +343,7 @@ META = {
              'anything else is C25:unexplained; random recorded sessions are validated by TLC against OpClientTrace.tla.'),
     'design_ref': 'DESIGN.md section 5 C25, A.5, D.7',
     'note': ('Trusted: FakeNode (one-account node simulator incl. its binary decoder), the history -> client call mapping (harness/vf/opclient.py). '
-             'Bounds: quick <= 5 calls after <= 2 builds (7 calls for the pipelining alphabet), thorough <= 6 (8); batches <= 2 (4 in recorded traces); <= 3 contexts.'),
+             'Bounds (builds not counted): quick <= 5 calls on one context, <= 4 on two contexts / two built groups, <= 7 for the autofill/inject/bake alphabet; '
+             'thorough <= 6, <= 4 (three contexts), <= 8; batches <= 2 (4 in recorded sessions); both mempool RPC forms.'),
     'technique': 'TLA+ spec + TLC exhaustive model checking; spec-behaviour replay into the real operation client against a simulated node; TLC trace validation of recorded sessions',
 }
